@@ -235,13 +235,32 @@ def step (s : State) (line : String) : State × String :=
      | some op => let r := s.step op; (r.1, renderAns r.2)
      | none => (s, "bad-op"))
 
-partial def loop (h : IO.FS.Stream) (out : IO.FS.Stream) (s : State) : IO Unit := do
+structure Drv where
+  s : State := {}
+  full : Array Write := #[]       -- the whole write history since init, oldest first (C18)
+  saved : Option State := none
+
+def drvStep (d : Drv) (line : String) : Drv × String × List Write :=
+  match line.trimAscii.toString.splitOn " " with
+  | ["cut", k, j] =>
+    (match cutOpen d.s d.full.toList (k.toNat?.getD 0) (j.toNat?.getD 0) with
+     | .ok s' => ({ d with s := s', saved := some (d.saved.getD d.s) }, "ok", [])
+     | .error e => (d, errStr e, []))
+  | ["uncut"] => ({ d with s := d.saved.getD d.s, saved := none }, "ok", [])
+  | ["loglen"] => (d, "ok " ++ toString d.full.size, [])
+  | _ =>
+    let (s', ans) := step { d.s with log := [] } line
+    let ws := s'.log.reverse
+    let full := if line.startsWith "init " then ws.toArray else d.full ++ ws.toArray
+    ({ d with s := s', full := full }, ans, ws)
+
+partial def loop (h : IO.FS.Stream) (out : IO.FS.Stream) (d : Drv) : IO Unit := do
   let line ← h.getLine
   if line.isEmpty then return ()
-  let (s', ans) := step { s with log := [] } line
+  let (d', ans, ws) := drvStep d line
   out.putStrLn ans
-  out.putStrLn ("#W " ++ toString s'.log.length ++ " " ++ toString (fnvWrites s'.log.reverse))
-  loop h out s'
+  out.putStrLn ("#W " ++ toString ws.length ++ " " ++ toString (fnvWrites ws))
+  loop h out d'
 
 def main : IO Unit := do
   let out ← IO.getStdout
